@@ -341,3 +341,281 @@ def kt_labels(case):
 def kt_nt(case):
     """Non-trivial by the C08 rule: a negative or zero weight, rank >= 2, order >= 3."""
     return any(x <= 0 for x in case["weights"]) and case["rank"] >= 2 and len(case["shape"]) >= 3
+
+
+# ----------------------------------------------------------------------------------------------------------------
+# (round 4, class 12) requests the unchanged tree rejects, and the state they must leave behind
+# ----------------------------------------------------------------------------------------------------------------
+# Only requests that raise on the unchanged tree are listed (probed: e.g. normalize(weight_factor=<out of range>),
+# arrange(permutation=<duplicates>), redistribute(-1) / redistribute(True) are *accepted* and therefore absent).
+# group 'early': the unchanged tree rejects before it touches the object -> attributes bit-identical afterwards.
+# group 'late': the unchanged tree normalises (and sorts) the receiver first and raises afterwards (known finding
+# C08-K4): the array denoted must still be the same; bit-identity is demanded under a clause of its own.
+REJECTED = {
+    "redistribute-mode": ("early", ["N", "N+1", "-N-1", "all", "none", "float", "npfloat", "list", "tuple", "array1"]),
+    "normalize-mode": ("early", ["N", "-1", "all", "frac", "float", "list", "tuple", "N-with-wf"]),
+    "normalize-normtype": ("early", ["fro", "x"]),
+    "arrange-perm": ("early", ["short", "long", "oor", "neg-oor", "with-wf", "2d-row", "strs"]),
+    "fixsigns-other": ("early", ["int", "ndarray", "tensor", "list"]),
+    "update": ("early", ["mode-N", "mode--2", "unsorted", "short", "short-after-weights", "str-mode", "float-mode"]),
+    # operations that return a new object: a rejected request leaves the receiver (and the other operand) alone
+    "extract": ("early", ["oor", "negative", "too-many", "str", "numpy-int", "empty"]),
+    "permute": ("early", ["short", "duplicate", "oor"]),
+    "tolist": ("early", ["N", "str", "numpy-int"]),
+    "algebra": ("early", ["add-int", "add-other-shape", "sub-other-shape", "mul-str", "mul-ktensor", "mul-array"]),
+    "score": ("early", ["int", "other-shape", "more-components", "threshold", "not-greedy"]),
+    "arrange-wf": ("late", ["N", "-N-1", "all", "float", "list"]),
+    "normalize-wf-float": ("late", ["float", "npfloat"]),
+    "fixsigns-other-mismatch": ("late", ["size", "more-components", "fewer-modes"]),
+}
+REJECTED_PAIRS = [(c, v) for c, (_, vs) in REJECTED.items() for v in vs]
+
+
+@st.composite
+def rejected_request(draw, N, late=True):
+    """JSON-able description of a rejected request; concrete arguments are built from the receiver's current shape
+    and rank when the step is carried out (``rejected_apply``).  k, j: a valid mode / a free integer."""
+    pairs = [p for p in REJECTED_PAIRS if late or REJECTED[p[0]][0] == "early"]
+    # two levels, so that no (call, variant) pair is rare: the call first, then its variant
+    calls = sorted({p[0] for p in pairs})
+    c = draw(st.sampled_from(calls))
+    v = draw(st.sampled_from(REJECTED[c][1]))
+    return dict(call=c, v=v, k=draw(st.integers(0, N - 1)), j=draw(st.integers(0, 7)))
+
+
+def _rejected_thunk(req, K, shape, R):
+    """(thunk performing the request on K, other operands that must stay untouched)"""
+    N = len(shape)
+    c, v, k, j = req["call"], req["v"], req["k"] % N, req["j"]
+    ident = list(range(R))
+    if c == "redistribute-mode":
+        arg = {"N": N, "N+1": N + 1, "-N-1": -N - 1, "all": "all", "none": None, "float": float(k),
+               "npfloat": np.float64(k), "list": [k], "tuple": (k,), "array1": np.array([k])}[v]
+        return (lambda: K.redistribute(arg)), []
+    if c == "normalize-mode":
+        arg = {"N": N, "-1": -1, "all": "all", "frac": k + 0.5, "float": float(k), "list": [k], "tuple": (k,),
+               "N-with-wf": N}[v]
+        if v == "N-with-wf":
+            return (lambda: K.normalize(weight_factor=k, mode=arg)), []
+        return (lambda: K.normalize(mode=arg, normtype=[1, 2, np.inf][j % 3])), []
+    if c == "normalize-normtype":
+        wf = [None, k, "all"][j % 3]
+        return (lambda: K.normalize(weight_factor=wf, sort=bool(j & 4), normtype=v)), []
+    if c == "arrange-perm":
+        if v == "2d-row" and R == 1:
+            v = "short"  # a 1 x 1 array has the right length and is accepted
+        p = {"short": ident[:-1], "long": ident + [j % R], "oor": ident[:j % R] + [R] + ident[j % R + 1:],
+             "neg-oor": ident[:j % R] + [-R - 1] + ident[j % R + 1:], "with-wf": ident[::-1],
+             "2d-row": np.array([ident[::-1]]), "strs": ["a"] * R}[v]
+        if v == "with-wf":
+            return (lambda: K.arrange(weight_factor=k, permutation=p)), []
+        if j & 1 and v in ("short", "long", "oor", "neg-oor"):
+            p = np.array(p, dtype=int)
+        return (lambda: K.arrange(permutation=p)), []
+    if c == "fixsigns-other":
+        if v == "int":
+            other = 3
+        elif v == "ndarray":
+            other = np.ones(tuple(shape))
+        elif v == "tensor":
+            other = ttb.tensor(np.ones(tuple(shape)))
+        else:
+            other = [np.ones((n, R)) for n in shape]
+        return (lambda: K.fixsigns(other)), []
+    if c == "update":
+        sz = [n * R for n in shape]
+        if v == "unsorted" and N < 2:
+            v = "mode-N"
+        if v == "mode-N":
+            modes, ln = [k, N], sz[k] + max(sz) + R
+        elif v == "mode--2":
+            modes, ln = [-2, k], sz[k] + max(sz) + R
+        elif v == "unsorted":
+            a, b = (k + 1) % N, k
+            a, b = max(a, b), min(a, b)
+            modes, ln = [a, b], sz[a] + sz[b]
+        elif v == "short":
+            modes, ln = [k], sz[k] - 1
+        elif v == "short-after-weights":
+            modes, ln = [-1, k], R + sz[k] - 1
+        elif v == "str-mode":
+            modes, ln = "a", sz[k]
+        else:
+            modes, ln = k + 0.5, sz[k]
+        if isinstance(modes, list) and j & 1:
+            modes = np.array(modes)
+        data = 1.0 + np.arange(ln, dtype=float)
+        return (lambda: K.update(modes, data)), []
+    if c == "extract":
+        arg = {"oor": ident[:-1] + [R], "negative": [-1], "too-many": ident + [0], "str": "a", "numpy-int": np.int64(0),
+               "empty": []}[v]
+        return (lambda: K.extract(arg)), []
+    if c == "permute":
+        md = list(range(N))
+        arg = {"short": md[:-1], "duplicate": md[:-1] + [md[0]] if N >= 2 else [0, 0], "oor": md[:-1] + [N]}[v]
+        return (lambda: K.permute(np.array(arg, dtype=int))), []
+    if c == "tolist":
+        arg = {"N": N, "str": "a", "numpy-int": np.int64(k)}[v]
+        return (lambda: K.tolist(arg)), []
+    if c == "algebra":
+        if v == "add-int":
+            return (lambda: K + 1), []
+        if v in ("add-other-shape", "sub-other-shape"):
+            sh = list(shape)
+            sh[k] += 1
+            other = ttb.ktensor([1.0 + np.arange(n * R, dtype=float).reshape(n, R) % 5 for n in sh], 2.0 - np.arange(R, dtype=float))
+            return ((lambda: K + other) if v[0] == "a" else (lambda: K - other)), [other]
+        if v == "mul-str":
+            return (lambda: K * "a"), []
+        if v == "mul-ktensor":
+            return (lambda: K * K), []
+        return (lambda: K * np.array([2.0, 3.0])), []
+    if c == "score":
+        sh, RB = list(shape), R
+        if v == "other-shape":
+            sh[k] += 1
+        elif v == "more-components":
+            RB = R + 1
+        other = ttb.ktensor([1.0 + np.arange(n * RB, dtype=float).reshape(n, RB) % 5 for n in sh], 2.0 - np.arange(RB, dtype=float))
+        if v == "int":
+            return (lambda: K.score(3)), []
+        if v == "threshold":
+            return (lambda: K.score(other, threshold=[1.5, -0.25][j % 2])), [other]
+        if v == "not-greedy":
+            return (lambda: K.score(other, greedy=False)), [other]
+        return (lambda: K.score(other)), [other]
+    if c == "arrange-wf":
+        arg = {"N": N, "-N-1": -N - 1, "all": "all", "float": float(k), "list": [k]}[v]
+        return (lambda: K.arrange(weight_factor=arg)), []
+    if c == "normalize-wf-float":
+        arg = float(k) if v == "float" else np.float64(k)
+        return (lambda: K.normalize(weight_factor=arg, sort=bool(j & 1), normtype=[1, 2, np.inf][j % 3])), []
+    if c == "fixsigns-other-mismatch":
+        if v == "fewer-modes" and N < 2:
+            v = "size"
+        sh, RB = list(shape), R
+        if v == "size":
+            sh[k] += 1
+        elif v == "more-components":
+            RB = R + 1
+        else:
+            sh = sh[:-1]
+        other = ttb.ktensor([1.0 + np.arange(n * RB, dtype=float).reshape(n, RB) % 5 for n in sh],
+                            2.0 - np.arange(RB, dtype=float))
+        return (lambda: K.fixsigns(other)), [other]
+    raise KeyError(c)
+
+
+def attrs(K):
+    return np.array(K.weights, dtype=float), [np.array(f, dtype=float) for f in K.factor_matrices]
+
+
+def attrs_equal(K, snap):
+    w, F = snap
+    return (isinstance(K.weights, np.ndarray) and K.weights.dtype == float and K.weights.shape == w.shape
+            and np.array_equal(K.weights, w) and isinstance(K.factor_matrices, list) and len(K.factor_matrices) == len(F)
+            and all(isinstance(a, np.ndarray) and a.dtype == float and a.shape == b.shape and np.array_equal(a, b)
+                    for a, b in zip(K.factor_matrices, F)))
+
+
+def rejected_apply(ctx, K, req, shape, R, tag="rejected"):
+    """Carry out a request the unchanged tree rejects on the live object K (current shape / rank given by the model).
+
+    raised   -> 'early' requests: K must be bit-for-bit what it was (weights, factor matrices, dtypes, shapes);
+                'late' requests: the same under a clause of its own (known finding C08-K4); the caller goes on to
+                demand a well-formed K that denotes the same array in either case;
+    returned -> (a tree that accepts the request) nothing more is demanded here: the caller's well-formedness and
+                same-array clauses still apply, for whatever was done is a re-parameterisation.
+    Other operands (a reference tensor) must be bit-identical in every case.  Returns True when K is bit-identical."""
+    group = REJECTED[req["call"]][0]
+    name = req["call"]
+    thunk, others = _rejected_thunk(req, K, shape, R)
+    before = attrs(K)
+    obefore = [attrs(o) for o in others]
+    ctx.label(f"{tag}:{name}", f"{tag}:{name}:{req['v']}", f"{tag}:group-{group}")
+    try:
+        thunk()
+        raised = False
+    except Exception:  # noqa: BLE001  (any exception type: the property does not say which)
+        raised = True
+    ctx.label(f"{tag}:raised" if raised else f"{tag}:accepted")
+    same = attrs_equal(K, before)
+    if raised:
+        clause = "attributes-bit-identical" if group == "early" else "late-attributes-bit-identical"
+        ctx.check(same, f"{tag}:{name}:{clause}", req["v"])
+    for o, ob in zip(others, obefore):
+        ctx.check(attrs_equal(o, ob), f"{tag}:{name}:operand-untouched", req["v"])
+    return same
+
+
+# ----------------------------------------------------------------------------------------------------------------
+# (round 4, class 11) the same valid argument in the forms ordinary callers use
+# ----------------------------------------------------------------------------------------------------------------
+# probed on the unchanged tree: accepted by normalize(weight_factor / mode / positional), arrange(weight_factor),
+# redistribute(mode), update(modes) and scalar * K; tolist(mode), extract(int) and K * scalar document a python int /
+# scalar and reject numpy scalars (left out)
+INT_SCALARS = {"int64": np.int64, "int32": np.int32, "int16": np.int16, "int8": np.int8, "uint8": np.uint8,
+               "uint16": np.uint16, "uint32": np.uint32, "uint64": np.uint64, "intp": np.intp,
+               "0d-array": lambda x: np.array(x), "0d-int32": lambda x: np.array(x, dtype=np.int32)}
+
+
+def _ro(a):
+    a = np.array(a)
+    a.setflags(write=False)
+    return a
+
+
+def _strided(a):
+    a = np.asarray(a)
+    b = np.zeros(2 * a.size + 1, dtype=a.dtype)
+    b[1::2] = a
+    return b[1::2]
+
+
+INDEX_COLLECTIONS = {
+    "tuple": tuple,
+    "int64": lambda p: np.array(p, dtype=np.int64), "int32": lambda p: np.array(p, dtype=np.int32),
+    "int8": lambda p: np.array(p, dtype=np.int8), "uint8": lambda p: np.array(p, dtype=np.uint8),
+    "uint16": lambda p: np.array(p, dtype=np.uint16), "uint64": lambda p: np.array(p, dtype=np.uint64),
+    "list-of-int64": lambda p: [np.int64(i) for i in p], "list-of-uint8": lambda p: [np.uint8(i) for i in p],
+    "tuple-of-uint64": lambda p: tuple(np.uint64(i) for i in p), "list-of-int32": lambda p: [np.int32(i) for i in p],
+    "read-only": lambda p: _ro(np.array(p, dtype=int)), "strided": lambda p: _strided(np.array(p, dtype=int)),
+    "strided-int32": lambda p: _strided(np.array(p, dtype=np.int32)),
+}
+UNSIGNED = ("uint8", "uint16", "uint64", "list-of-uint8", "tuple-of-uint64")
+
+
+def present_matrix(f, form):
+    """the same float64 matrix as a caller may hold it"""
+    f = np.array(f, dtype=float)
+    if form == "C":
+        return np.ascontiguousarray(f)
+    if form == "F":
+        return np.asfortranarray(f)
+    if form == "read-only-F":
+        return _ro(np.asfortranarray(f))
+    if form == "read-only-C":
+        return _ro(np.ascontiguousarray(f))
+    if form == "transposed-view":
+        return np.ascontiguousarray(f.T).T
+    if form == "strided":
+        big = np.zeros((2 * f.shape[0] + 1, 2 * f.shape[1] + 1))
+        big[1::2, 1::2] = f
+        return big[1::2, 1::2]
+    if form == "reversed-view":
+        return np.ascontiguousarray(f[::-1, ::-1])[::-1, ::-1]
+    raise KeyError(form)
+
+
+MATRIX_FORMS = ["C", "F", "F", "read-only-F", "read-only-F", "read-only-C", "transposed-view", "strided", "reversed-view"]
+
+
+def present_vector(w, form):
+    w = np.array(w, dtype=float)
+    if form in ("read-only-F", "read-only-C"):
+        return _ro(w)
+    if form in ("strided", "transposed-view"):
+        return _strided(w)
+    if form == "reversed-view":
+        return np.ascontiguousarray(w[::-1])[::-1]
+    return w
